@@ -318,3 +318,28 @@ Proof.
   { unfold Q2R. cbn [Qnum Qden]. change (bpow radix2 (-64)) with (/ IZR (Z.pow_pos 2 64)). rewrite Rmult_1_l. reflexivity. }
   rewrite B in U. assert (bpow radix2 (-64) < bpow radix2 (-63)) by (apply bpow_lt; lia). lra.
 Qed.
+
+(* ---------------------------------------------------------------- unbiased, end to end *)
+Lemma draw64_k_of_shift : forall k : N, (k < 2 ^ 53)%N -> draw64_k (k * 2 ^ 11) = k.
+Proof.
+  intros k H. unfold draw64_k. rewrite N.mod_small.
+  - rewrite N.shiftr_div_pow2. apply N.div_mul. discriminate.
+  - change (2 ^ 64)%N with (2 ^ 53 * 2 ^ 11)%N. apply N.mul_lt_mono_pos_r; [reflexivity | exact H].
+Qed.
+
+(* For every f32 rate in [2^-52, 1]: over the 2^53 equally likely values of the 53-bit draw, the weights the real
+   computation hands out add up to exactly 2^53 times the computed inverse rate - its mean is the inverse rate. *)
+Theorem weight_unbiased : forall rate : f32,
+  Binary.is_finite 24 128 rate = true -> 0 < R32 rate -> R32 rate <= 1 -> bpow radix2 (-52) <= R32 rate ->
+  IZR (Z.of_N (sum_below (fun k => rate_to_n rate (k * 2 ^ 11)) two53)) = bpow radix2 53 * inv_real rate.
+Proof.
+  intros rate F P L H. destruct (weight_exact_link_rate rate F P L H) as (I & E & _ & W).
+  assert (S : sum_below (fun k => rate_to_n rate (k * 2 ^ 11)) two53 = sum_below (weight_exact I) two53).
+  { rewrite two53_val. generalize (N.le_refl (2 ^ 53)%N). generalize (2 ^ 53)%N at 1 3 4. intros n.
+    induction n as [|n IH] using N.peano_ind; intros Hn; [reflexivity|].
+    rewrite !sum_below_succ, IH by lia. rewrite W, draw64_k_of_shift by lia. reflexivity. }
+  rewrite S, weight_mean_exact, E. rewrite N2Z.inj_mul, mult_IZR. change (Z.of_N 2) with 2%Z.
+  replace (bpow radix2 53) with (2 * bpow radix2 52) by (change 53%Z with (1 + 52)%Z; rewrite bpow_plus; reflexivity).
+  assert (B : bpow radix2 52 * bpow radix2 (-52) = 1) by (rewrite <- bpow_plus; reflexivity).
+  transitivity (2 * IZR (Z.of_N I) * (bpow radix2 52 * bpow radix2 (-52))); [rewrite B; ring | ring].
+Qed.
